@@ -1,0 +1,26 @@
+//go:build verif
+
+package sfnt
+
+import "seehuhn.de/go/sfnt/cff"
+
+// Hooks for part C03B of the verification harness (add-only, thin wrappers
+// around the unexported table makers the three writers of write.go call).
+
+// VerifC03bMakeHmtx exposes makeHmtx: the "hhea" and "hmtx" tables.
+func (f *Font) VerifC03bMakeHmtx() (hhea, hmtx []byte) { return f.makeHmtx() }
+
+// VerifC03bMakeOS2 exposes makeOS2.
+func (f *Font) VerifC03bMakeOS2() []byte { return f.makeOS2() }
+
+// VerifC03bMakeName exposes makeName.
+func (f *Font) VerifC03bMakeName() []byte { return f.makeName() }
+
+// VerifC03bMakePost exposes makePost.
+func (f *Font) VerifC03bMakePost() []byte { return f.makePost() }
+
+// VerifC03bMakeHead exposes makeHead.
+func (f *Font) VerifC03bMakeHead(locaFormat int16) []byte { return f.makeHead(locaFormat) }
+
+// VerifC03bMakeCFF exposes makeCFF.
+func (f *Font) VerifC03bMakeCFF(o *cff.Outlines) ([]byte, error) { return f.makeCFF(o) }
